@@ -2,6 +2,7 @@
 import ExprModel.Props.C06
 import ExprModel.Props.C07
 import ExprModel.Props.C10
+import ExprModel.Props.C11
 import ExprModel.Props.C12
 import ExprModel.Props.C13
 import ExprModel.Props.C14
